@@ -93,6 +93,17 @@ Step(src, st, U, s) ==
   ELSE IF o = "raise" THEN
      \* the test body raises an exception of its own: no site is touched
      [st |-> st, res |-> "EX", miss |-> 0, inc |-> 0]
+  ELSE IF o \in {"eqbad", "inbad"} THEN
+     \* the compared value cannot be copied faithfully (its deep copy is not equal to it): a usage error,
+     \* nothing is recorded; the operation still fixes the kind of the site (generic_value.py:clone)
+     LET k == IF o = "eqbad" THEN "eq" ELSE "in" IN
+     IF st.kind # "undecided" /\ st.kind # k
+     THEN [st |-> [st EXCEPT !.ev = TRUE], res |-> "TE", miss |-> 0, inc |-> 0]
+     ELSE IF o = "eqbad" /\ st.new # <<>>
+          \* an == site copies only the first value it is compared with; later it just answers (the value is
+          \* equal to nothing)
+          THEN [st |-> st, res |-> "F", miss |-> IF src.def THEN 0 ELSE 1, inc |-> 1]
+          ELSE [st |-> [kind |-> k, new |-> st.new, ev |-> TRUE], res |-> "UE", miss |-> IF src.def THEN 0 ELSE 1, inc |-> 0]
   ELSE IF o \in {"lebot", "gebot"} THEN
      \* a bound comparison with a value of an incomparable type: the comparison raises TypeError; the first
      \* operation still fixes the kind of the site, nothing is recorded (min_max_value.py)
@@ -149,7 +160,7 @@ Pending(src, st) ==
   ELSE IF st.kind = "undecided" THEN
       \* evaluated, never operated: only the representation can be updated
       IF src.def /\ \E j \in DOMAIN src.e : ~src.e[j].canon THEN {"update"} ELSE {}
-  ELSE IF st.kind \in ScalarOps /\ st.new = <<>> THEN {}      \* every comparison raised: nothing was recorded
+  ELSE IF st.kind \in ScalarOps \cup {"in"} /\ st.new = <<>> THEN {}      \* every comparison raised: nothing was recorded
   ELSE IF ~src.def THEN {"create"}
   ELSE LET ov == ValsOf(src.e) nv == ValsOf(st.new) IN
   CASE st.kind \in ScalarOps -> ScalarPending(st.kind, src.e[1], nv[1])
@@ -173,7 +184,7 @@ NewSrc(src, st, A) ==
   IF ~st.ev THEN src
   ELSE IF st.kind = "undecided" THEN
       (IF src.def /\ "update" \in A THEN Some(CanonE(src.e)) ELSE src)
-  ELSE IF st.kind \in ScalarOps /\ st.new = <<>> THEN src
+  ELSE IF st.kind \in ScalarOps \cup {"in"} /\ st.new = <<>> THEN src
   ELSE IF ~src.def THEN (IF "create" \in A THEN Some(CanonE(st.new)) ELSE src)
   ELSE CASE st.kind \in ScalarOps -> IF Pending(src, st) \cap A # {} THEN Some(CanonE(st.new)) ELSE src
     [] st.kind = "in" ->
